@@ -240,6 +240,12 @@ func (e *Engine) checkPost(st *State, res []Val, pos interface{}) {
 	env.fr = fr // snap variables recorded by atcall hooks are visible in postconditions
 	bindResults(env, fc, res)
 	for _, en := range fc.Ensures {
+		if hasTag(en.Tags, "DET") {
+			// "the result is a function of the arguments named g(args)": a naming of the (deterministic) result by an
+			// uninterpreted function, used by callers, not provable from the body; listed as an assumption
+			e.abstracted["assumed clause (result named by an uninterpreted function of the arguments): "+fc.Key+": "+en.Text] = true
+			continue
+		}
 		t, err := e.evalBool(st, env, en.Expr)
 		if err != nil {
 			e.unsupported("ensures %d of %s: %v", en.Ord, fc.Key, err)
